@@ -173,6 +173,11 @@ def drive_case(case):
             _convert(b, "test")
             fmt = None
             composed = None
+        elif op == "vars_changed":  # the backend converts, THEN the user changes a variable of the pipeline
+            composed = pipes[0] + pipes[1]
+            b = Plain(composed)
+            _convert(b, probes=PROBES + [PROBE_PH])
+            composed.vars["k1"] = 55
         elif op == "reuse_sum_again":
             first = pipes[0] + pipes[1]
             composed = pipes[0] + pipes[1]
